@@ -88,7 +88,10 @@ func UpdatePathAttrs2ByteAs(msg *bgp.BGPUpdate) {
 		}
 	}
 	msg.PathAttributes[idx] = bgp.NewPathAttributeAsPath(as2Params)
-	if mkAs4 {
+	// An AS4_PATH without any segment cannot carry an AS number and is
+	// malformed (RFC 6793 6.); that happens when only confederation segments
+	// hold 4-octet AS numbers.
+	if mkAs4 && len(as4Params) > 0 {
 		msg.PathAttributes = append(msg.PathAttributes, bgp.NewPathAttributeAs4Path(as4Params))
 	}
 }
